@@ -47,6 +47,9 @@ class RefCFG:
 
     def schema(self, s):
         """returns nonterminal name deriving the serialisations of valid instances of s"""
+        if s is False:
+            # no instance validates: a nonterminal without rules
+            return self.fresh("false")
         if s is True or s == {}:
             raise ValueError("unconstrained schema not in the subset")
         if "$ref" in s:
@@ -81,35 +84,60 @@ class RefCFG:
         props = list((s.get("properties") or {}).items())
         req = set(s.get("required") or [])
         addl = s.get("additionalProperties", False)
-        # M[i][e]: members from declared position i on; e = whether a member was already emitted (comma needed)
+        min_p = s.get("minProperties", 0)
+        max_p = s.get("maxProperties", None)
         names = {}
+        av = self.schema(addl) if addl is not False else None
 
-        def M(i, e):
-            key = (i, e)
+        def kv():
+            return [self.T(ADDKEY), self.T(":"), ("N", av)]
+
+        def M(i, cnt):
+            """members from declared position i on, `cnt` members already emitted (a comma is needed iff cnt > 0)"""
+            key = (i, cnt)
             if key in names:
                 return names[key]
             nm = self.fresh("m")
             names[key] = nm
+            if max_p is not None and cnt > max_p:
+                return nm  # dead: no rules
             if i == len(props):
-                self.rules.append((nm, []))
-                if addl is not False:
-                    av = self.schema(addl)
-                    kv = [self.T(ADDKEY), self.T(":"), ("N", av)]
-                    # one or more additional members, each preceded by a comma if something was emitted
+                need = max(0, min_p - cnt)
+                room = None if max_p is None else max_p - cnt
+                if addl is False:
+                    if need == 0:
+                        self.rules.append((nm, []))
+                    return nm
+
+                def members(j, first_comma):
+                    out = []
+                    for t in range(j):
+                        if t or first_comma:
+                            out.append(self.T(","))
+                        out += kv()
+                    return out
+                if room is not None:
+                    for j in range(need, room + 1):
+                        self.rules.append((nm, members(j, cnt > 0)))
+                else:
                     tail = self.fresh("a")
                     self.rules.append((tail, []))
-                    self.rules.append((tail, [self.T(",")] + kv + [("N", tail)]))
-                    self.rules.append((nm, ([self.T(",")] if e else []) + kv + [("N", tail)]))
+                    self.rules.append((tail, [self.T(",")] + kv() + [("N", tail)]))
+                    if need == 0:
+                        self.rules.append((nm, []))
+                        self.rules.append((nm, members(1, cnt > 0) + [("N", tail)]))
+                    else:
+                        self.rules.append((nm, members(need, cnt > 0) + [("N", tail)]))
                 return nm
             k, ps = props[i]
             v = self.schema(ps)
-            member = ([self.T(",")] if e else []) + [self.T(ser(k)), self.T(":"), ("N", v)]
-            self.rules.append((nm, member + [("N", M(i + 1, True))]))
+            member = ([self.T(",")] if cnt > 0 else []) + [self.T(ser(k)), self.T(":"), ("N", v)]
+            self.rules.append((nm, member + [("N", M(i + 1, cnt + 1))]))
             if k not in req:
-                self.rules.append((nm, [("N", M(i + 1, e))]))
+                self.rules.append((nm, [("N", M(i + 1, cnt))]))
             return nm
 
-        self.rules.append((n, [self.T("{"), ("N", M(0, False)), self.T("}")]))
+        self.rules.append((n, [self.T("{"), ("N", M(0, 0)), self.T("}")]))
 
     def arr(self, n, s):
         prefix = s.get("prefixItems") or []
@@ -202,6 +230,17 @@ def gen_schema(rng, depth=0, defs=None):
             s["additionalProperties"] = False
         else:
             s["additionalProperties"] = gen_leaf(rng)
+        if rng.random() < 0.3:
+            # min/maxProperties is only supported when every declared key is required
+            req = list(keys)
+            s["required"] = req
+            nreq = len(req)
+            if s["additionalProperties"] is not False:
+                s["maxProperties"] = nreq + rng.choice([0, 0, 1, 2])
+                if rng.random() < 0.4:
+                    s["minProperties"] = rng.randint(0, s["maxProperties"])
+            else:
+                s["maxProperties"] = rng.randint(max(nreq, 0), max(nreq, nprops))
         if not props:
             del s["properties"]
             del s["required"]
@@ -220,6 +259,13 @@ def gen_schema(rng, depth=0, defs=None):
             s["minItems"] = lo
         if rng.random() < 0.7:
             s["maxItems"] = lo + rng.randint(0, 3)
+        if npre and rng.random() < 0.2:
+            # an unsatisfiable prefix item at an optional position caps the array length there
+            j = rng.randint(min(s.get("minItems", 0), npre - 1), npre - 1)
+            if j >= s.get("minItems", 0):
+                s["prefixItems"][j] = False
+                if rng.random() < 0.6:
+                    s.pop("maxItems", None)
         if s.get("items") is False:
             cap = npre
             if s.get("minItems", 0) > cap:
@@ -245,6 +291,11 @@ def gen_case(rng):
 
 
 HAND = [
+    {"type": "array", "prefixItems": [{"type": "boolean"}, False], "items": {"type": "null"}},
+    {"type": "array", "prefixItems": [{"const": 1}, False, {"type": "null"}], "items": {"enum": ["x"]}, "minItems": 1},
+    {"type": "object", "properties": {"a": {"const": 1}, "b": {"type": "null"}}, "required": ["a", "b"], "additionalProperties": {"type": "boolean"}, "maxProperties": 2},
+    {"type": "object", "properties": {"a": {"const": 1}}, "required": ["a"], "additionalProperties": {"type": "null"}, "minProperties": 2, "maxProperties": 3},
+
     {"type": "object", "properties": {"a": {"type": "integer", "enum": [1, 2]}, "b": {"anyOf": [{"type": "null"}, {"type": "array", "items": {"enum": ["x", "y"]}, "maxItems": 2}]},
                                       "c": {"const": {"k": [1, "z"]}}}, "required": ["a"], "additionalProperties": {"type": "boolean"}},
     {"type": "array", "prefixItems": [{"const": 1}, {"type": "boolean"}], "items": False, "minItems": 1},
